@@ -33,6 +33,7 @@ type qfrag struct {
 	set   *qset
 	dir   string // printed directives of this spread / inline fragment
 	skip  bool   // the directives exclude it
+	bare  bool   // inline fragment written without type condition ("... { }"): applies to the enclosing type
 }
 
 type qset struct {
@@ -72,23 +73,24 @@ func isObj(t string) bool {
 }
 
 type gen struct {
-	noD    bool // the federated schema has no D type
-	nb     bool // select the non-null field A.nb as well
-	bs2    bool // select the root field bs2 (served by a non-root service in the federated world)
-	inDef  int  // > 0 while the body of a named fragment is being generated
+	noD   bool // the federated schema has no D type
+	nb    bool // select the non-null field A.nb as well
+	bs2   bool // select the root field bs2 (served by a non-root service in the federated world)
+	inDef int  // > 0 while the body of a named fragment is being generated
 	// argVars: some arguments are passed through declared variables (provided,
 	// defaulted, or explicitly null); varDecls / varVals collect them
+	bareFrags  bool // inline fragments may omit their type condition
 	rootTN     bool // __typename may be selected on the query root too
 	grid       bool // select the list-of-lists field A.grid
 	unionFrags bool // fragments whose type condition is the union type itself
-	argVars  bool
-	varDecls []string
-	varVals  map[string]interface{}
-	dirs   bool // the query declares $t / $f and carries @skip / @include directives
-	c      *runner.Ctx
-	w      *world
-	named  []*qfrag // named fragment definitions
-	budget int
+	argVars    bool
+	varDecls   []string
+	varVals    map[string]interface{}
+	dirs       bool // the query declares $t / $f and carries @skip / @include directives
+	c          *runner.Ctx
+	w          *world
+	named      []*qfrag // named fragment definitions
+	budget     int
 }
 
 // genSet draws a selection set for an object type.
@@ -101,8 +103,8 @@ func (g *gen) genSet(typ string, depth int) *qset {
 	for i := 0; i < n && g.budget > 0; i++ {
 		g.budget--
 		switch []int{0, 0, 0, 0, 0, 0, 0, 0, 1, 1, 3, 3, 3, 3, 4}[g.c.Choose(15, "sel-kind")] {
-		case 1, 2: // inline fragment on the same type
-			set.frags = append(set.frags, &qfrag{on: typ, set: g.genSet(typ, depth+1)})
+		case 1, 2: // inline fragment on the same type (sometimes without naming it)
+			set.frags = append(set.frags, &qfrag{on: typ, bare: g.bareFrags && g.c.Choose(3, "fragment-without-type-condition") == 1, set: g.genSet(typ, depth+1)})
 			continue
 		case 3: // named fragment (new or reused)
 			var reuse []*qfrag
@@ -344,6 +346,9 @@ func (s *qset) print(sb *strings.Builder) {
 	for _, f := range s.frags {
 		if f.named != "" {
 			sb.WriteString("..." + f.named + " " + f.dir)
+		} else if f.bare {
+			sb.WriteString("... " + f.dir)
+			f.set.print(sb)
 		} else {
 			sb.WriteString("... on " + f.on + " " + f.dir)
 			f.set.print(sb)
@@ -894,6 +899,27 @@ func wildQuery(c *runner.Ctx) (string, map[string]interface{}) {
 		`query Q($v: int64 = 0) { a(i: $v) { id } }`,
 		`query Q($v: int64! = 0) { a(i: $v) { id } }`,
 		`query Q($v: [[int64]]) { n @skip(if: $v) }`,
+		// well-formed GraphQL that thunder may or may not support
+		`{ as { ... { id } } us { ... { __typename } } ... { n } }`,
+		`query A { n } query B { n }`,
+		`subscription { n }`,
+		`{ as @nope(x: 1) { id @deprecated } }`,
+		`{ as { ...F } } fragment F on Nope { id }`,
+		`{ as { ... on Nope { id } } }`,
+		`{ n } # trailing comment`,
+		`{ n } fragment Unused on Query { n }`,
+		`{ ...F } fragment F on Query { ...G } fragment G on Query { ...F }`,
+		`{ ...Undefined }`,
+		`{ ...F } fragment F on Query { n } fragment F on Query { n }`,
+		`{ a(i: 0) { tag(x: -0) b { label(p: """block "string" \u00e9""") } } }`,
+		`{ a(i: 1e400) { id } }`,
+		`{ a(i: 0) { b { a { b { a { b { a { b { a { b { a { b { a { b { a { b { id } } } } } } } } } } } } } } } } }`,
+		`{ aaaaaaaaaaaaaaaaaaaaaaaaaaaaaaaaaaaaaaaaaaaaaaaaaaaaaaaaaaaaaaaaaaaaaaaaaaaaaaaaaaaaaaaaaaaaaaaaaaaaaaaaaaaaaaaaaaaaaaaaaaaaaaaaaaaaaaaaaaaaaaaaaaaaaaaa: n }`,
+		`{ __schema { types { name } } __type(name: "A") { name fields { name type { name kind } } } }`,
+		`mutation { n }`,
+		`{ us { id } }`,
+		`{ n { x } }`,
+		`{ as }`,
 	}
 	k := c.Choose(len(texts), "wild-query")
 	vars := map[string]interface{}{}
